@@ -1,8 +1,1537 @@
-//! C15 WebSocket over a fragmenting relay — not built yet.
+//! C15 (WebSocket half) — the WebSocket layer preserves the message stream
+//! over any transport behaviour.
+//!
+//! `compio_ws::WebSocketStream` is sealed to `PollFd`-based streams, so it runs
+//! inside a compio runtime (both drivers) over a **fragmenting relay**:
+//!
+//! ```text
+//!   client task  <-- link A -->  relay thread  <-- link B -->  server task
+//!   (compio rt)    socketpair    (std thread,    socketpair    (compio rt)
+//!                  or TCP lo     libc poll/recv/send)
+//! ```
+//!
+//! All four sockets can get the kernel-minimum `SO_SNDBUF`/`SO_RCVBUF`; the
+//! relay forwards each direction with a seeded cyclic script of
+//! `(max bytes per recv, max bytes per send, pause)` and a small internal
+//! buffer, which produces real partial writes, `EAGAIN` and 1-byte reads on
+//! the compio side. Plain and TLS-wrapped (rustls and native-tls through
+//! `compio_tls`, handshake through the same relay).
+//!
+//! Workload: WebSocket handshake, message lists in both directions (text,
+//! binary, ping, ping-and-wait-for-pong; 0 B .. 1 MiB), half-duplex phases or
+//! full duplex through `split()`, then the close handshake started by either
+//! role, then the transport close.
+//!
+//! Oracle: messages read == messages sent (kind and payload), in order,
+//! exactly once; pongs seen are a subsequence of the pings sent; the close
+//! frame arrives unchanged, is echoed, and both sides then observe
+//! `ConnectionClosed` (not a reset/protocol error); both tasks terminate.
+//!
+//! Hangs are decided by **logical quiescence**, never by time: when nothing
+//! moved for a while the supervisor asks the relay (probe/ack) whether it is
+//! idle (buffers empty, nothing readable on its sockets), checks the kernel
+//! queues of the peers' sockets, then runs further runtime iterations; if the
+//! picture is unchanged, a task that is still pending can never finish: a
+//! hang = violation. The per-case watchdog only yields `inconclusive`.
 
-use vcommon::Args;
+use std::{
+    cell::RefCell,
+    io,
+    os::fd::{AsRawFd, RawFd},
+    rc::Rc,
+    sync::{
+        Arc,
+        atomic::{AtomicBool, AtomicU64, Ordering},
+    },
+    task::{Context, Poll, Waker},
+    time::{Duration, Instant},
+};
 
-pub fn main(_args: &Args) {
-    eprintln!("c15w: not implemented");
-    std::process::exit(3);
+use compio_buf::IntoInner;
+use compio_driver::{DriverType, ProactorBuilder};
+use compio_runtime::{Runtime, fd::PollFd};
+use compio_tls::MaybeTlsStream;
+use compio_ws::{
+    Config, WebSocketStream, accept_async_with_config, client_async_with_config,
+    tungstenite::{
+        Error as WsError, Message,
+        protocol::{CloseFrame, WebSocketConfig, frame::coding::CloseCode},
+    },
+};
+use futures_util::{AsyncWriteExt, SinkExt, StreamExt};
+use socket2::{Domain, Socket, Type};
+use vcommon::{Args, Report, Rng, Value, json, panics};
+
+// ---------------------------------------------------------------------------
+// Case description
+// ---------------------------------------------------------------------------
+
+#[derive(Clone, Debug, PartialEq)]
+struct Step {
+    rd: usize,
+    wr: usize,
+    pause_us: u64,
+}
+
+#[derive(Clone, Debug)]
+struct RelayScript {
+    class: String,
+    /// Per direction (0: client->server, 1: server->client) a cyclic script.
+    steps: [Vec<Step>; 2],
+    /// Internal buffer of the relay per direction.
+    cap: usize,
+    /// Until the end of the HTTP upgrade header (`\r\n\r\n`) was forwarded in
+    /// a direction, chunks are at least this large (0 = script applies from
+    /// the first byte). tungstenite deliberately rejects a handshake that
+    /// arrives in more than 64 reads averaging under 128 B (`AttackAttempt`).
+    hs_chunk: usize,
+    /// Harness self-test only (replay JSON `selftest_blackhole`): after this
+    /// many client->server bytes the relay swallows the rest, which must be
+    /// reported as a hang by the quiescence rule.
+    blackhole_after: Option<u64>,
+}
+
+#[derive(Clone, Copy, Debug, PartialEq, Eq)]
+enum Kind {
+    Text,
+    Binary,
+    Ping,
+    /// Ping, then read until the matching pong came back.
+    PingSync,
+}
+
+#[derive(Clone, Debug)]
+struct MsgSpec {
+    kind: Kind,
+    len: usize,
+}
+
+#[derive(Clone, Debug)]
+struct Case {
+    family: String,
+    /// "iouring" | "poll"
+    driver: String,
+    /// "unix" | "tcp"
+    link: String,
+    /// "none" | "rustls" | "native"
+    tls: String,
+    /// 0 = kernel default socket buffers, else requested size (kernel clamps
+    /// to its minimum).
+    sockbuf: usize,
+    relay: RelayScript,
+    msgs: [Vec<MsgSpec>; 2],
+    duplex: bool,
+    /// send(): flush after each message; else feed() all and flush once.
+    flush_each: bool,
+    /// 0 = client starts the close handshake, 1 = server.
+    closer: usize,
+    /// 0 default, 1 write_buffer_size = 0, 2 large write buffer.
+    wscfg: u8,
+    seed: u64,
+}
+
+fn kind_name(k: Kind) -> &'static str {
+    match k {
+        Kind::Text => "text",
+        Kind::Binary => "binary",
+        Kind::Ping => "ping",
+        Kind::PingSync => "pingsync",
+    }
+}
+
+fn kind_parse(s: &str) -> Kind {
+    match s {
+        "text" => Kind::Text,
+        "ping" => Kind::Ping,
+        "pingsync" => Kind::PingSync,
+        _ => Kind::Binary,
+    }
+}
+
+impl Case {
+    fn to_json(&self) -> Value {
+        let steps = |v: &Vec<Step>| -> Vec<Value> {
+            v.iter().map(|s| json!([s.rd, s.wr, s.pause_us])).collect()
+        };
+        let msgs = |v: &Vec<MsgSpec>| -> Vec<Value> {
+            v.iter().map(|m| json!([kind_name(m.kind), m.len])).collect()
+        };
+        json!({
+            "family": self.family, "driver": self.driver, "link": self.link, "tls": self.tls,
+            "sockbuf": self.sockbuf,
+            "relay": {"class": self.relay.class, "cap": self.relay.cap, "hs_chunk": self.relay.hs_chunk, "selftest_blackhole": self.relay.blackhole_after,
+                      "steps": [steps(&self.relay.steps[0]), steps(&self.relay.steps[1])]},
+            "msgs": [msgs(&self.msgs[0]), msgs(&self.msgs[1])],
+            "duplex": self.duplex, "flush_each": self.flush_each, "closer": self.closer,
+            "wscfg": self.wscfg, "seed": self.seed,
+        })
+    }
+
+    fn from_json(v: &Value) -> Self {
+        let steps = |v: &Value| -> Vec<Step> {
+            let mut out: Vec<Step> = v
+                .as_array()
+                .map(|a| {
+                    a.iter()
+                        .map(|s| Step {
+                            rd: s[0].as_u64().unwrap_or(4096).max(1) as usize,
+                            wr: s[1].as_u64().unwrap_or(4096).max(1) as usize,
+                            pause_us: s[2].as_u64().unwrap_or(0),
+                        })
+                        .collect()
+                })
+                .unwrap_or_default();
+            if out.is_empty() {
+                out.push(Step { rd: 65536, wr: 65536, pause_us: 0 });
+            }
+            out
+        };
+        let msgs = |v: &Value| -> Vec<MsgSpec> {
+            v.as_array()
+                .map(|a| {
+                    a.iter()
+                        .map(|m| MsgSpec {
+                            kind: kind_parse(m[0].as_str().unwrap_or("binary")),
+                            len: m[1].as_u64().unwrap_or(0) as usize,
+                        })
+                        .collect()
+                })
+                .unwrap_or_default()
+        };
+        Self {
+            family: v["family"].as_str().unwrap_or("replay").into(),
+            driver: v["driver"].as_str().unwrap_or("poll").into(),
+            link: v["link"].as_str().unwrap_or("unix").into(),
+            tls: v["tls"].as_str().unwrap_or("none").into(),
+            sockbuf: v["sockbuf"].as_u64().unwrap_or(0) as usize,
+            relay: RelayScript {
+                class: v["relay"]["class"].as_str().unwrap_or("replay").into(),
+                cap: v["relay"]["cap"].as_u64().unwrap_or(65536).max(1) as usize,
+                hs_chunk: v["relay"]["hs_chunk"].as_u64().unwrap_or(0) as usize,
+                blackhole_after: v["relay"]["selftest_blackhole"].as_u64(),
+                steps: [steps(&v["relay"]["steps"][0]), steps(&v["relay"]["steps"][1])],
+            },
+            msgs: [msgs(&v["msgs"][0]), msgs(&v["msgs"][1])],
+            duplex: v["duplex"].as_bool().unwrap_or(false),
+            flush_each: v["flush_each"].as_bool().unwrap_or(true),
+            closer: v["closer"].as_u64().unwrap_or(0) as usize,
+            wscfg: v["wscfg"].as_u64().unwrap_or(0) as u8,
+            seed: v["seed"].as_u64().unwrap_or(0),
+        }
+    }
+
+    fn layer(&self) -> String {
+        if self.tls == "none" { "ws".into() } else { format!("wss-{}", self.tls) }
+    }
+}
+
+// ---------------------------------------------------------------------------
+// Sockets
+// ---------------------------------------------------------------------------
+
+fn set_bufs(s: &Socket, sockbuf: usize) -> io::Result<()> {
+    if sockbuf > 0 {
+        s.set_send_buffer_size(sockbuf)?;
+        s.set_recv_buffer_size(sockbuf)?;
+    }
+    Ok(())
+}
+
+/// One link: (compio side, relay side).
+fn make_link(link: &str, sockbuf: usize) -> io::Result<(Socket, Socket)> {
+    if link == "tcp" {
+        let l = Socket::new(Domain::IPV4, Type::STREAM, None)?;
+        set_bufs(&l, sockbuf)?;
+        let addr: std::net::SocketAddr = "127.0.0.1:0".parse().expect("addr");
+        l.bind(&addr.into())?;
+        l.listen(1)?;
+        let local = l.local_addr()?;
+        let c = Socket::new(Domain::IPV4, Type::STREAM, None)?;
+        set_bufs(&c, sockbuf)?;
+        c.connect(&local)?;
+        let (a, _) = l.accept()?;
+        set_bufs(&a, sockbuf)?;
+        // Nagle / delayed ACK would only add wall time, not behaviour
+        c.set_tcp_nodelay(true)?;
+        a.set_tcp_nodelay(true)?;
+        Ok((c, a))
+    } else {
+        let (a, b) = Socket::pair(Domain::UNIX, Type::STREAM, None)?;
+        set_bufs(&a, sockbuf)?;
+        set_bufs(&b, sockbuf)?;
+        Ok((a, b))
+    }
+}
+
+fn inq(fd: RawFd) -> i64 {
+    let mut n: libc::c_int = 0;
+    let r = unsafe { libc::ioctl(fd, libc::FIONREAD, &mut n) };
+    if r < 0 { -1 } else { n as i64 }
+}
+
+/// TCP: bytes sent but not yet acknowledged.
+fn unacked(fd: RawFd) -> i64 {
+    const SIOCOUTQNSD: libc::c_ulong = 0x894B;
+    let mut nsd: libc::c_int = 0;
+    let r = unsafe { libc::ioctl(fd, SIOCOUTQNSD as _, &mut nsd) };
+    if r < 0 {
+        return 0;
+    }
+    (outq(fd) - nsd as i64).max(0)
+}
+
+fn outq(fd: RawFd) -> i64 {
+    let mut n: libc::c_int = 0;
+    let r = unsafe { libc::ioctl(fd, libc::TIOCOUTQ, &mut n) };
+    if r < 0 { -1 } else { n as i64 }
+}
+
+// ---------------------------------------------------------------------------
+// The relay thread
+// ---------------------------------------------------------------------------
+
+#[derive(Default)]
+struct RelayShared {
+    /// Bumped on every byte moved / EOF forwarded.
+    activity: AtomicU64,
+    probe_req: AtomicU64,
+    probe_ack: AtomicU64,
+    probe_idle: AtomicBool,
+    stop: AtomicBool,
+    bytes: [AtomicU64; 2],
+    /// Bytes sitting in the relay per direction (updated at each probe).
+    buffered: [AtomicU64; 2],
+    reads: AtomicU64,
+    one_byte_reads: AtomicU64,
+    writes: AtomicU64,
+    short_sends: AtomicU64,
+    eagain_sends: AtomicU64,
+    /// Relay-side fds (for queue inspection by the supervisor).
+    fds: [AtomicU64; 2],
+}
+
+struct DirState {
+    buf: Vec<u8>,
+    head: usize,
+    eof_in: bool,
+    shut: bool,
+    dead: bool,
+    rd_i: usize,
+    wr_i: usize,
+    pause_until: Option<Instant>,
+    /// Number of bytes of `\r\n\r\n` matched so far at the forwarding
+    /// position; 4 = the upgrade header has been forwarded completely.
+    hdr_match: usize,
+}
+
+impl DirState {
+    fn new() -> Self {
+        Self {
+            buf: Vec::new(),
+            head: 0,
+            eof_in: false,
+            shut: false,
+            dead: false,
+            rd_i: 0,
+            wr_i: 0,
+            pause_until: None,
+            hdr_match: 0,
+        }
+    }
+
+    fn in_header(&self, script: &RelayScript) -> bool {
+        script.hs_chunk > 0 && self.hdr_match < 4
+    }
+
+    /// Track `\r\n\r\n` over forwarded bytes.
+    fn track_header(&mut self, data: &[u8]) {
+        for b in data {
+            if self.hdr_match >= 4 {
+                return;
+            }
+            let want = [b'\r', b'\n', b'\r', b'\n'][self.hdr_match];
+            if *b == want {
+                self.hdr_match += 1;
+            } else {
+                self.hdr_match = if *b == b'\r' { 1 } else { 0 };
+            }
+        }
+    }
+
+    fn len(&self) -> usize {
+        self.buf.len() - self.head
+    }
+}
+
+fn cap_of(st: &DirState, script: &RelayScript) -> usize {
+    if st.in_header(script) { script.cap.max(script.hs_chunk) } else { script.cap }
+}
+
+fn relay_main(a: Socket, b: Socket, script: RelayScript, sh: Arc<RelayShared>) {
+    let fds = [a.as_raw_fd(), b.as_raw_fd()];
+    let _ = a.set_nonblocking(true);
+    let _ = b.set_nonblocking(true);
+    sh.fds[0].store(fds[0] as u64, Ordering::SeqCst);
+    sh.fds[1].store(fds[1] as u64, Ordering::SeqCst);
+    // direction d: src = fds[d], dst = fds[1 - d]
+    let mut dirs = [DirState::new(), DirState::new()];
+    let mut tmp = vec![0u8; 1 << 18];
+    let mut last_ack = 0u64;
+    loop {
+        if sh.stop.load(Ordering::SeqCst) {
+            break;
+        }
+        let now = Instant::now();
+        let mut pf = [
+            libc::pollfd { fd: fds[0], events: 0, revents: 0 },
+            libc::pollfd { fd: fds[1], events: 0, revents: 0 },
+        ];
+        let mut timeout = Duration::from_millis(2);
+        for d in 0..2 {
+            let st = &mut dirs[d];
+            if let Some(t) = st.pause_until {
+                if t <= now {
+                    st.pause_until = None;
+                } else {
+                    timeout = timeout.min(t - now);
+                }
+            }
+            if !st.eof_in && !st.dead && st.len() < cap_of(st, &script) {
+                pf[d].events |= libc::POLLIN;
+            }
+            if st.len() > 0 && st.pause_until.is_none() && !st.dead {
+                pf[1 - d].events |= libc::POLLOUT;
+            }
+        }
+        let ts = libc::timespec {
+            tv_sec: 0,
+            tv_nsec: timeout.as_nanos().min(2_000_000) as _,
+        };
+        let rc = unsafe { libc::ppoll(pf.as_mut_ptr(), 2, &ts, std::ptr::null()) };
+        if rc < 0 {
+            let e = io::Error::last_os_error();
+            if e.kind() != io::ErrorKind::Interrupted {
+                break;
+            }
+            continue;
+        }
+        for d in 0..2 {
+            let src = fds[d];
+            let dst = fds[1 - d];
+            let steps = &script.steps[d];
+            // --- read
+            let can_read = {
+                let st = &dirs[d];
+                !st.eof_in && !st.dead && st.len() < cap_of(st, &script)
+            };
+            if can_read && pf[d].revents & (libc::POLLIN | libc::POLLHUP | libc::POLLERR) != 0 {
+                let st = &mut dirs[d];
+                let cap = cap_of(st, &script);
+                let mut want = steps[st.rd_i % steps.len()].rd;
+                if st.in_header(&script) {
+                    want = want.max(script.hs_chunk);
+                }
+                let want = want.min(cap - st.len()).min(tmp.len()).max(1);
+                let n = unsafe { libc::recv(src, tmp.as_mut_ptr() as *mut _, want, libc::MSG_DONTWAIT) };
+                if n > 0 {
+                    st.rd_i += 1;
+                    if st.head == st.buf.len() {
+                        st.buf.clear();
+                        st.head = 0;
+                    }
+                    st.buf.extend_from_slice(&tmp[..n as usize]);
+                    sh.reads.fetch_add(1, Ordering::Relaxed);
+                    if n == 1 {
+                        sh.one_byte_reads.fetch_add(1, Ordering::Relaxed);
+                    }
+                    sh.activity.fetch_add(1, Ordering::SeqCst);
+                } else if n == 0 {
+                    st.eof_in = true;
+                    sh.activity.fetch_add(1, Ordering::SeqCst);
+                } else {
+                    let e = io::Error::last_os_error();
+                    if !matches!(e.kind(), io::ErrorKind::WouldBlock | io::ErrorKind::Interrupted) {
+                        // reset by the peer: nothing more will come
+                        st.eof_in = true;
+                        sh.activity.fetch_add(1, Ordering::SeqCst);
+                    }
+                }
+            }
+            // --- write
+            let st = &mut dirs[d];
+            if st.len() > 0 && st.pause_until.is_none() && !st.dead && pf[1 - d].revents & (libc::POLLOUT | libc::POLLERR | libc::POLLHUP) != 0 {
+                let step = &steps[st.wr_i % steps.len()];
+                let mut want = step.wr;
+                if st.in_header(&script) {
+                    want = want.max(script.hs_chunk);
+                }
+                let want = want.min(st.len()).max(1);
+                if d == 0
+                    && let Some(limit) = script.blackhole_after
+                    && sh.bytes[0].load(Ordering::Relaxed) >= limit
+                {
+                    // self-test: swallow
+                    st.head = st.buf.len();
+                    continue;
+                }
+                let n = unsafe {
+                    libc::send(dst, st.buf[st.head..].as_ptr() as *const _, want, libc::MSG_DONTWAIT | libc::MSG_NOSIGNAL)
+                };
+                if n > 0 {
+                    st.wr_i += 1;
+                    if st.in_header(&script) {
+                        let (h, n) = (st.head, n as usize);
+                        let sent: Vec<u8> = st.buf[h..h + n].to_vec();
+                        st.track_header(&sent);
+                    }
+                    st.head += n as usize;
+                    sh.bytes[d].fetch_add(n as u64, Ordering::Relaxed);
+                    sh.writes.fetch_add(1, Ordering::Relaxed);
+                    if (n as usize) < want {
+                        sh.short_sends.fetch_add(1, Ordering::Relaxed);
+                    }
+                    if step.pause_us > 0 {
+                        st.pause_until = Some(Instant::now() + Duration::from_micros(step.pause_us));
+                    }
+                    sh.activity.fetch_add(1, Ordering::SeqCst);
+                } else {
+                    let e = io::Error::last_os_error();
+                    if matches!(e.kind(), io::ErrorKind::WouldBlock | io::ErrorKind::Interrupted) {
+                        sh.eagain_sends.fetch_add(1, Ordering::Relaxed);
+                    } else {
+                        // the receiving peer is gone: drop what cannot be delivered
+                        st.dead = true;
+                        st.head = st.buf.len();
+                        sh.activity.fetch_add(1, Ordering::SeqCst);
+                    }
+                }
+            }
+            // --- forward EOF
+            if st.eof_in && st.len() == 0 && !st.shut {
+                unsafe { libc::shutdown(dst, libc::SHUT_WR) };
+                st.shut = true;
+                sh.activity.fetch_add(1, Ordering::SeqCst);
+            }
+        }
+        // --- probe
+        let req = sh.probe_req.load(Ordering::SeqCst);
+        if req != last_ack {
+            // The relay is *stalled* when it can do nothing by itself: per
+            // direction nothing to forward (or the destination is not
+            // writable), nothing to read (or its buffer is full), no EOF to
+            // forward and no pause that will end. Only the two peers can
+            // change that.
+            let mut idle = true;
+            for d in 0..2 {
+                let st = &dirs[d];
+                let readable = |fd: RawFd, ev: libc::c_short| -> bool {
+                    let mut p = libc::pollfd { fd, events: ev, revents: 0 };
+                    let r = unsafe { libc::poll(&mut p, 1, 0) };
+                    r > 0 && p.revents & (ev | libc::POLLHUP | libc::POLLERR) != 0
+                };
+                if st.eof_in && st.len() == 0 && !st.shut {
+                    idle = false;
+                }
+                if st.len() > 0 && !st.dead && (st.pause_until.is_some() || readable(fds[1 - d], libc::POLLOUT)) {
+                    idle = false;
+                }
+                if !st.eof_in && !st.dead && st.len() < cap_of(st, &script) && readable(fds[d], libc::POLLIN) {
+                    idle = false;
+                }
+                sh.buffered[d].store(st.len() as u64, Ordering::SeqCst);
+            }
+            sh.probe_idle.store(idle, Ordering::SeqCst);
+            sh.probe_ack.store(req, Ordering::SeqCst);
+            last_ack = req;
+        }
+    }
+    drop(a);
+    drop(b);
+}
+
+/// Ask the relay whether it is idle. `None` = no answer (harness problem).
+fn probe(sh: &RelayShared) -> Option<bool> {
+    let req = sh.probe_req.fetch_add(1, Ordering::SeqCst) + 1;
+    let t0 = Instant::now();
+    while sh.probe_ack.load(Ordering::SeqCst) < req {
+        if t0.elapsed() > Duration::from_secs(10) {
+            return None;
+        }
+        std::thread::sleep(Duration::from_micros(200));
+    }
+    Some(sh.probe_idle.load(Ordering::SeqCst))
+}
+
+// ---------------------------------------------------------------------------
+// Payloads
+// ---------------------------------------------------------------------------
+
+fn payload(seed: u64, dir: usize, idx: usize, len: usize, text: bool) -> Vec<u8> {
+    let mut x = seed ^ (dir as u64 + 1).wrapping_mul(0x9E37_79B9_7F4A_7C15) ^ (idx as u64 + 1).wrapping_mul(0xD6E8_FEB8_6659_FD93);
+    let mut out = Vec::with_capacity(len);
+    while out.len() < len {
+        x ^= x << 13;
+        x ^= x >> 7;
+        x ^= x << 17;
+        for b in x.to_le_bytes() {
+            if out.len() == len {
+                break;
+            }
+            out.push(if text { 0x20 + b % 0x5f } else { b });
+        }
+    }
+    out
+}
+
+fn build(seed: u64, dir: usize, idx: usize, m: &MsgSpec) -> Message {
+    match m.kind {
+        Kind::Text => {
+            let p = payload(seed, dir, idx, m.len, true);
+            Message::text(String::from_utf8(p).expect("ascii"))
+        }
+        Kind::Binary => Message::binary(payload(seed, dir, idx, m.len, false)),
+        Kind::Ping | Kind::PingSync => Message::Ping(payload(seed, dir, idx, m.len.min(125), false).into()),
+    }
+}
+
+fn describe(m: &Message) -> String {
+    match m {
+        Message::Text(t) => format!("Text({} B)", t.len()),
+        Message::Binary(b) => format!("Binary({} B)", b.len()),
+        Message::Ping(b) => format!("Ping({} B)", b.len()),
+        Message::Pong(b) => format!("Pong({} B)", b.len()),
+        Message::Close(c) => format!("Close({c:?})"),
+        Message::Frame(_) => "Frame".into(),
+    }
+}
+
+// ---------------------------------------------------------------------------
+// The two peers
+// ---------------------------------------------------------------------------
+
+struct SideLog {
+    phase: &'static str,
+    failure: Option<(String, String)>,
+    done: bool,
+    /// The task is about to release (or has released) its socket.
+    fd_released: bool,
+    received: usize,
+    sent: usize,
+    pongs: Vec<Vec<u8>>,
+    pings_sent: Vec<Vec<u8>>,
+    close_seen: bool,
+}
+
+struct Log {
+    sides: [SideLog; 2],
+    events: u64,
+}
+
+type Shared = Rc<RefCell<Log>>;
+type Ws = WebSocketStream<Socket>;
+type Fail = (String, String);
+
+fn ev(log: &Shared) {
+    log.borrow_mut().events += 1;
+}
+
+fn phase(log: &Shared, role: usize, p: &'static str) {
+    let mut l = log.borrow_mut();
+    l.sides[role].phase = p;
+    l.events += 1;
+}
+
+fn ws_config(case: &Case) -> Config {
+    let c = match case.wscfg {
+        1 => WebSocketConfig::default().write_buffer_size(0),
+        2 => WebSocketConfig::default()
+            .write_buffer_size(4 << 20)
+            .max_write_buffer_size(64 << 20),
+        _ => return Config::default(),
+    };
+    Config::from(c)
+}
+
+fn close_frame() -> CloseFrame {
+    CloseFrame {
+        code: CloseCode::Normal,
+        reason: "c15 done".into(),
+    }
+}
+
+/// Compare one received non-pong message with what the peer sent at `idx`.
+fn check_incoming(case: &Case, from: usize, idx: usize, got: &Message) -> Result<(), Fail> {
+    let list = &case.msgs[from];
+    let Some(spec) = list.get(idx) else {
+        return Err((
+            "extra-message".into(),
+            format!("received {} after all {} messages of the peer (duplicate or invented)", describe(got), list.len()),
+        ));
+    };
+    let exp = build(case.seed, from, idx, spec);
+    if *got != exp {
+        let same_kind = std::mem::discriminant(got) == std::mem::discriminant(&exp);
+        return Err((
+            if same_kind { "payload-mismatch".into() } else { "kind-or-order-mismatch".into() },
+            format!("message #{idx} from the peer: expected {}, got {}", describe(&exp), describe(got)),
+        ));
+    }
+    Ok(())
+}
+
+fn record_pong(log: &Shared, role: usize, p: &[u8]) {
+    let mut l = log.borrow_mut();
+    l.sides[role].pongs.push(p.to_vec());
+    l.events += 1;
+}
+
+async fn send_all<S>(tx: &mut S, rx_for_sync: Option<&mut Ws>, case: &Case, role: usize, log: &Shared) -> Result<(), Fail>
+where
+    S: futures_util::Sink<Message, Error = WsError> + Unpin,
+{
+    let mut rx_for_sync = rx_for_sync;
+    for (idx, spec) in case.msgs[role].iter().enumerate() {
+        let msg = build(case.seed, role, idx, spec);
+        if let Message::Ping(p) = &msg {
+            log.borrow_mut().sides[role].pings_sent.push(p.to_vec());
+        }
+        let r = if case.flush_each || spec.kind == Kind::PingSync {
+            tx.send(msg).await
+        } else {
+            tx.feed(msg).await
+        };
+        if let Err(e) = r {
+            return Err(("send-error".into(), format!("sending message #{idx} ({}, {} B) failed: {e}", kind_name(spec.kind), spec.len)));
+        }
+        {
+            let mut l = log.borrow_mut();
+            l.sides[role].sent += 1;
+            l.events += 1;
+        }
+        if spec.kind == Kind::PingSync
+            && let Some(ws) = rx_for_sync.as_deref_mut()
+        {
+            // half duplex: the peer only reads, so the pong is an automatic reply
+            let want = payload(case.seed, role, idx, spec.len.min(125), false);
+            loop {
+                match ws.read().await {
+                    Ok(Message::Pong(p)) => {
+                        record_pong(log, role, &p);
+                        if p[..] == want[..] {
+                            break;
+                        }
+                    }
+                    Ok(other) => {
+                        return Err(("unexpected-message".into(), format!("while waiting for the pong of ping #{idx}: got {}", describe(&other))));
+                    }
+                    Err(e) => {
+                        return Err(("read-error".into(), format!("while waiting for the pong of ping #{idx}: {e}")));
+                    }
+                }
+            }
+        }
+    }
+    if let Err(e) = tx.flush().await {
+        return Err(("flush-error".into(), format!("final flush failed: {e}")));
+    }
+    ev(log);
+    Ok(())
+}
+
+/// Read until all messages of the peer arrived.
+async fn recv_all<R>(rx: &mut R, case: &Case, role: usize, log: &Shared) -> Result<(), Fail>
+where
+    R: futures_util::Stream<Item = Result<Message, WsError>> + Unpin,
+{
+    let from = 1 - role;
+    let total = case.msgs[from].len();
+    while log.borrow().sides[role].received < total {
+        let idx = log.borrow().sides[role].received;
+        match rx.next().await {
+            Some(Ok(Message::Pong(p))) => record_pong(log, role, &p),
+            Some(Ok(m @ Message::Close(_))) => {
+                return Err(("premature-close".into(), format!("got {} after {idx} of {total} messages", describe(&m))));
+            }
+            Some(Ok(m)) => {
+                check_incoming(case, from, idx, &m)?;
+                let mut l = log.borrow_mut();
+                l.sides[role].received += 1;
+                l.events += 1;
+            }
+            Some(Err(e)) => {
+                return Err(("read-error".into(), format!("after {idx} of {total} messages: {e}")));
+            }
+            None => {
+                return Err(("premature-end".into(), format!("stream ended after {idx} of {total} messages")));
+            }
+        }
+    }
+    Ok(())
+}
+
+/// After the close frame went out / came in: the stream must end cleanly.
+async fn expect_closed(ws: &mut Ws, role: usize, log: &Shared) -> Result<(), Fail> {
+    loop {
+        match ws.read().await {
+            Err(WsError::ConnectionClosed) | Err(WsError::AlreadyClosed) => {
+                ev(log);
+                return Ok(());
+            }
+            Ok(Message::Pong(p)) => record_pong(log, role, &p),
+            Ok(m) => {
+                return Err(("extra-message".into(), format!("after the close handshake: got {}", describe(&m))));
+            }
+            Err(e) => {
+                return Err(("close-not-clean".into(), format!("after the close handshake the stream ended with {e:?} instead of ConnectionClosed")));
+            }
+        }
+    }
+}
+
+async fn close_phase(ws: &mut Ws, case: &Case, role: usize, log: &Shared) -> Result<(), Fail> {
+    let from = 1 - role;
+    if role == case.closer {
+        phase(log, role, "close-send");
+        if let Err(e) = ws.close(Some(close_frame())).await {
+            return Err(("close-error".into(), format!("close() failed: {e}")));
+        }
+        phase(log, role, "close-wait-echo");
+    } else {
+        phase(log, role, "close-wait");
+    }
+    // wait for the peer's close frame (request or echo)
+    loop {
+        match ws.read().await {
+            Ok(Message::Pong(p)) => record_pong(log, role, &p),
+            Ok(Message::Close(f)) => {
+                if f != Some(close_frame()) {
+                    return Err(("close-frame-mismatch".into(), format!("close frame arrived as {f:?}")));
+                }
+                let mut l = log.borrow_mut();
+                l.sides[role].close_seen = true;
+                l.events += 1;
+                break;
+            }
+            Ok(m) => {
+                let idx = log.borrow().sides[role].received;
+                check_incoming(case, from, idx, &m)?;
+                // in order but beyond the expected count cannot happen: check_incoming
+                // reports `extra-message` for idx >= len
+                return Err(("extra-message".into(), format!("unexpected {} in the close phase", describe(&m))));
+            }
+            Err(e) => {
+                return Err(("close-not-clean".into(), format!("waiting for the peer's close frame: {e:?}")));
+            }
+        }
+    }
+    phase(log, role, "close-wait-end");
+    expect_closed(ws, role, log).await
+}
+
+async fn peer(role: usize, sock: Socket, case: Rc<Case>, log: Shared) -> Result<(), Fail> {
+    let fd = PollFd::new(sock).map_err(|e| ("harness".to_string(), format!("PollFd::new: {e}")))?;
+    let stream: MaybeTlsStream<PollFd<Socket>> = if case.tls == "none" {
+        MaybeTlsStream::new_plain(fd)
+    } else {
+        phase(&log, role, "tls-handshake");
+        let m = crate::c15t::material().map_err(|e| ("harness".to_string(), e))?;
+        let r = if role == 0 {
+            let c = if case.tls == "native" { m.native_con[0].clone() } else { m.rustls_con[0].clone() };
+            c.connect("localhost", fd).await
+        } else {
+            let a = if case.tls == "native" { m.native_acc[0].clone() } else { m.rustls_acc[0].clone() };
+            a.accept(fd).await
+        };
+        match r {
+            Ok(s) => MaybeTlsStream::new_tls(s),
+            Err(e) => return Err(("tls-handshake-error".into(), format!("{e}"))),
+        }
+    };
+    phase(&log, role, "ws-handshake");
+    let mut ws: Ws = if role == 0 {
+        match client_async_with_config("ws://localhost/c15", stream, ws_config(&case)).await {
+            Ok((ws, _resp)) => ws,
+            Err(WsError::AttackAttempt) if case.tls == "none" && case.relay.hs_chunk < 128 => {
+                return Err(("policy-attack-attempt".into(), "client".into()));
+            }
+            Err(e) => return Err(("ws-handshake-error".into(), format!("client: {e}"))),
+        }
+    } else {
+        match accept_async_with_config(stream, ws_config(&case)).await {
+            Ok(ws) => ws,
+            Err(WsError::AttackAttempt) if case.tls == "none" && case.relay.hs_chunk < 128 => {
+                return Err(("policy-attack-attempt".into(), "server".into()));
+            }
+            Err(e) => return Err(("ws-handshake-error".into(), format!("server: {e}"))),
+        }
+    };
+    if case.duplex {
+        phase(&log, role, "duplex");
+        let (mut tx, mut rx) = ws.split();
+        let w = async {
+            let r = send_all(&mut tx, None, &case, role, &log).await;
+            (tx, r)
+        };
+        let r = async {
+            let r = recv_all(&mut rx, &case, role, &log).await;
+            (rx, r)
+        };
+        let ((tx, wr), (rx, rr)) = futures_util::future::join(w, r).await;
+        wr?;
+        rr?;
+        ws = tx
+            .reunite(rx)
+            .map_err(|_| ("harness".to_string(), "reunite failed".to_string()))?;
+    } else {
+        for dir in 0..2 {
+            if role == dir {
+                phase(&log, role, "send");
+                // `send_all` wants the sink and (for ping-sync) the stream: same object
+                let ptr: *mut Ws = &mut ws;
+                // SAFETY: both references are used strictly sequentially inside
+                // `send_all` (send, then read, never overlapping).
+                let (a, b) = unsafe { (&mut *ptr, &mut *ptr) };
+                send_all(a, Some(b), &case, role, &log).await?;
+            } else {
+                phase(&log, role, "recv");
+                recv_all(&mut ws, &case, role, &log).await?;
+            }
+        }
+    }
+    close_phase(&mut ws, &case, role, &log).await?;
+    phase(&log, role, "transport-close");
+    log.borrow_mut().sides[role].fd_released = true;
+    let mut inner = ws.into_inner();
+    // TLS: close_notify; plain: shutdown(write). Errors here are not part of
+    // the statement (the peer may already be gone).
+    let _ = inner.close().await;
+    drop(inner);
+    Ok(())
+}
+
+// ---------------------------------------------------------------------------
+// Supervisor
+// ---------------------------------------------------------------------------
+
+#[derive(Debug)]
+struct Failure {
+    rule: String,
+    role: usize,
+    phase: String,
+    detail: String,
+}
+
+struct Outcome {
+    failure: Option<Failure>,
+    inconclusive: Option<String>,
+    relay_bytes: [u64; 2],
+    one_byte_reads: u64,
+    short_sends: u64,
+    eagain_sends: u64,
+    iterations: u64,
+    pongs: [usize; 2],
+    pings: [usize; 2],
+    /// tungstenite's handshake attack check rejected the fragmented upgrade
+    /// request/response (deliberate policy of the dependency): no verdict.
+    policy_reject: bool,
+}
+
+const QUIET_BEFORE_PROBE: Duration = Duration::from_millis(40);
+const CONFIRM_ITERS: usize = 150;
+
+fn run_case(case: &Case, watchdog: Duration) -> Outcome {
+    let case = Rc::new(case.clone());
+    let mut out = Outcome {
+        failure: None,
+        inconclusive: None,
+        relay_bytes: [0, 0],
+        one_byte_reads: 0,
+        short_sends: 0,
+        eagain_sends: 0,
+        iterations: 0,
+        pongs: [0, 0],
+        pings: [0, 0],
+        policy_reject: false,
+    };
+    let links = (make_link(&case.link, case.sockbuf), make_link(&case.link, case.sockbuf));
+    let ((a1, a2), (b1, b2)) = match links {
+        (Ok(a), Ok(b)) => (a, b),
+        (Err(e), _) | (_, Err(e)) => {
+            out.inconclusive = Some(format!("cannot create sockets: {e}"));
+            return out;
+        }
+    };
+    let peer_fds = [a1.as_raw_fd(), b1.as_raw_fd()];
+    let sh = Arc::new(RelayShared::default());
+    let relay = {
+        let sh = sh.clone();
+        let script = case.relay.clone();
+        std::thread::Builder::new()
+            .name("c15w-relay".into())
+            .spawn(move || relay_main(a2, b2, script, sh))
+    };
+    let relay = match relay {
+        Ok(r) => r,
+        Err(e) => {
+            out.inconclusive = Some(format!("cannot spawn relay: {e}"));
+            return out;
+        }
+    };
+    let mut pb = ProactorBuilder::new();
+    pb.driver_type(if case.driver == "iouring" { DriverType::IoUring } else { DriverType::Poll });
+    let rt = match Runtime::builder().with_proactor(pb).build() {
+        Ok(rt) => rt,
+        Err(e) => {
+            sh.stop.store(true, Ordering::SeqCst);
+            let _ = relay.join();
+            out.inconclusive = Some(format!("cannot build a {} runtime: {e}", case.driver));
+            return out;
+        }
+    };
+    let log: Shared = Rc::new(RefCell::new(Log {
+        sides: std::array::from_fn(|_| SideLog {
+            phase: "start",
+            failure: None,
+            done: false,
+            fd_released: false,
+            received: 0,
+            sent: 0,
+            pongs: Vec::new(),
+            pings_sent: Vec::new(),
+            close_seen: false,
+        }),
+        events: 0,
+    }));
+
+    let mut panic_payload = None;
+    rt.enter(|| {
+        let mut socks = [Some(a1), Some(b1)];
+        let mut handles: Vec<Option<compio_runtime::JoinHandle<()>>> = (0..2)
+            .map(|role| {
+                let sock = socks[role].take().expect("socket");
+                let case = case.clone();
+                let log = log.clone();
+                Some(rt.spawn(async move {
+                    let r = peer(role, sock, case, log.clone()).await;
+                    let mut l = log.borrow_mut();
+                    l.sides[role].fd_released = true;
+                    if let Err(f) = r {
+                        l.sides[role].failure = Some(f);
+                    }
+                    l.sides[role].done = true;
+                    l.events += 1;
+                }))
+            })
+            .collect();
+        let noop = Waker::noop();
+        let t0 = Instant::now();
+        let mark = |log: &Shared| (sh.activity.load(Ordering::SeqCst), log.borrow().events);
+        let mut last = mark(&log);
+        let mut quiet_since = Instant::now();
+        'sup: loop {
+            out.iterations += 1;
+            rt.run();
+            // reap
+            for h in handles.iter_mut() {
+                if let Some(jh) = h.as_mut() {
+                    let mut cx = Context::from_waker(noop);
+                    if let Poll::Ready(r) = std::pin::Pin::new(jh).poll(&mut cx) {
+                        *h = None;
+                        if let Err(e) = r {
+                            match e {
+                                compio_runtime::JoinError::Panicked(p) => {
+                                    panic_payload = Some(p);
+                                    break 'sup;
+                                }
+                                compio_runtime::JoinError::Cancelled => {}
+                            }
+                        }
+                    }
+                }
+            }
+            let (done, failed) = {
+                let l = log.borrow();
+                (
+                    l.sides.iter().all(|s| s.done),
+                    l.sides.iter().any(|s| s.failure.is_some()),
+                )
+            };
+            if done || failed {
+                break;
+            }
+            rt.poll_with(Some(Duration::from_millis(std::env::var("C15W_POLL_MS").ok().and_then(|v| v.parse().ok()).unwrap_or(2))));
+            let now_mark = mark(&log);
+            if now_mark != last {
+                last = now_mark;
+                quiet_since = Instant::now();
+                continue;
+            }
+            if t0.elapsed() > watchdog {
+                out.inconclusive = Some(format!("watchdog: case not finished after {watchdog:?}"));
+                break;
+            }
+            if quiet_since.elapsed() < QUIET_BEFORE_PROBE {
+                continue;
+            }
+            // --- quiescence check (logical)
+            let snapshot = |log: &Shared| -> Option<(bool, [i64; 2], [i64; 2], bool)> {
+                let idle = probe(&sh)?;
+                let l = log.borrow();
+                let mut unread = [0i64; 2];
+                let mut unsent = [0i64; 2];
+                let mut in_flight = false;
+                for r in 0..2 {
+                    if !l.sides[r].fd_released {
+                        unread[r] = inq(peer_fds[r]).max(0);
+                        unsent[r] = outq(peer_fds[r]).max(0);
+                        if case.link == "tcp" {
+                            // sent but not yet acknowledged bytes = segments on
+                            // their way (unsent bytes behind a closed window are
+                            // not in flight: they are back-pressure)
+                            let rfd = sh.fds[r].load(Ordering::SeqCst) as RawFd;
+                            if unacked(peer_fds[r]) > 0 || unacked(rfd) > 0 {
+                                in_flight = true;
+                            }
+                        }
+                    }
+                }
+                Some((idle, unread, unsent, in_flight))
+            };
+            let Some((idle, _, _, in_flight)) = snapshot(&log) else {
+                out.inconclusive = Some("relay did not answer the probe".into());
+                break;
+            };
+            if !idle || in_flight {
+                // the relay still has work (e.g. a scripted pause): not quiescent
+                quiet_since = Instant::now();
+                continue;
+            }
+            for _ in 0..CONFIRM_ITERS {
+                rt.run();
+                rt.poll_with(Some(Duration::from_millis(1)));
+                out.iterations += 1;
+            }
+            if mark(&log) != last {
+                last = mark(&log);
+                quiet_since = Instant::now();
+                continue;
+            }
+            let Some((idle2, unread, unsent, in_flight2)) = snapshot(&log) else {
+                out.inconclusive = Some("relay did not answer the probe".into());
+                break;
+            };
+            if !idle2 || in_flight2 || mark(&log) != last {
+                quiet_since = Instant::now();
+                continue;
+            }
+            // Quiescent: relay idle twice with no activity in between, nothing
+            // in flight, CONFIRM_ITERS runtime iterations without any event.
+            let l = log.borrow();
+            let stuck: Vec<usize> = (0..2).filter(|r| !l.sides[*r].done).collect();
+            let blamed = stuck
+                .iter()
+                .copied()
+                .find(|r| unread[*r] > 0)
+                .unwrap_or(stuck[0]);
+            let buffered = [sh.buffered[0].load(Ordering::SeqCst), sh.buffered[1].load(Ordering::SeqCst)];
+            let rule = if buffered.iter().all(|b| *b > 0) && unread.iter().all(|u| *u > 0) {
+                // both directions are full up to the peers' sockets and neither
+                // peer reads what is readable
+                "hang-mutual-backpressure"
+            } else if unread[blamed] > 0 {
+                "hang-input-not-consumed"
+            } else if buffered.iter().any(|b| *b > 0) {
+                "hang-backpressure"
+            } else {
+                "hang-all-idle"
+            };
+            out.failure = Some(Failure {
+                rule: rule.into(),
+                role: blamed,
+                phase: l.sides[blamed].phase.into(),
+                detail: format!(
+                    "logical quiescence: the relay is stalled (per direction: nothing to forward or destination not writable; nothing readable or buffer full), {CONFIRM_ITERS} further runtime iterations without any event or relay activity; client: phase {} done={} sent {}/{} received {}/{} unread-in-socket {} unsent-in-socket {}; server: phase {} done={} sent {}/{} received {}/{} unread-in-socket {} unsent-in-socket {}; relay holds c->s {} s->c {} bytes; relayed so far c->s {} s->c {}",
+                    l.sides[0].phase, l.sides[0].done, l.sides[0].sent, case.msgs[0].len(), l.sides[0].received, case.msgs[1].len(), unread[0], unsent[0],
+                    l.sides[1].phase, l.sides[1].done, l.sides[1].sent, case.msgs[1].len(), l.sides[1].received, case.msgs[0].len(), unread[1], unsent[1],
+                    buffered[0], buffered[1],
+                    sh.bytes[0].load(Ordering::Relaxed), sh.bytes[1].load(Ordering::Relaxed),
+                ),
+            });
+            break;
+        }
+        // cancel whatever is left, let the cancellations complete
+        handles.clear();
+        for _ in 0..4 {
+            rt.run();
+            rt.poll_with(Some(Duration::ZERO));
+        }
+    });
+    drop(rt);
+    sh.stop.store(true, Ordering::SeqCst);
+    let _ = relay.join();
+    if let Some(p) = panic_payload {
+        std::panic::resume_unwind(p);
+    }
+    out.relay_bytes = [sh.bytes[0].load(Ordering::Relaxed), sh.bytes[1].load(Ordering::Relaxed)];
+    out.one_byte_reads = sh.one_byte_reads.load(Ordering::Relaxed);
+    out.short_sends = sh.short_sends.load(Ordering::Relaxed);
+    out.eagain_sends = sh.eagain_sends.load(Ordering::Relaxed);
+    let l = log.borrow();
+    for r in 0..2 {
+        out.pongs[r] = l.sides[r].pongs.len();
+        out.pings[r] = l.sides[r].pings_sent.len();
+    }
+    if l.sides.iter().any(|s| s.failure.as_ref().is_some_and(|f| f.0 == "policy-attack-attempt")) {
+        out.policy_reject = true;
+        out.failure = None;
+    }
+    if out.failure.is_none() && out.inconclusive.is_none() && !out.policy_reject {
+        // a failure recorded by a task (the first one in role order)
+        for r in 0..2 {
+            if let Some((rule, detail)) = &l.sides[r].failure {
+                out.failure = Some(Failure {
+                    rule: rule.clone(),
+                    role: r,
+                    phase: l.sides[r].phase.into(),
+                    detail: detail.clone(),
+                });
+                break;
+            }
+        }
+    }
+    if out.failure.is_none() && out.inconclusive.is_none() && !out.policy_reject {
+        for r in 0..2 {
+            let s = &l.sides[r];
+            // exactly once / nothing missing
+            if s.received != case.msgs[1 - r].len() || s.sent != case.msgs[r].len() {
+                out.failure = Some(Failure {
+                    rule: "count-mismatch".into(),
+                    role: r,
+                    phase: s.phase.into(),
+                    detail: format!("sent {} of {}, received {} of {}", s.sent, case.msgs[r].len(), s.received, case.msgs[1 - r].len()),
+                });
+                break;
+            }
+            if !s.close_seen {
+                out.failure = Some(Failure {
+                    rule: "close-not-seen".into(),
+                    role: r,
+                    phase: s.phase.into(),
+                    detail: "task finished without having seen the peer's close frame".into(),
+                });
+                break;
+            }
+            // pongs: a subsequence of the pings this side sent
+            let mut it = s.pings_sent.iter();
+            for p in &s.pongs {
+                if !it.any(|q| q == p) {
+                    out.failure = Some(Failure {
+                        rule: "pong-mismatch".into(),
+                        role: r,
+                        phase: s.phase.into(),
+                        detail: format!("a pong ({} B) does not answer any not-yet-answered ping, in order (duplicate, reordered or invented)", p.len()),
+                    });
+                    break;
+                }
+            }
+        }
+    }
+    if let Some(f) = &out.failure
+        && f.rule == "harness"
+    {
+        out.inconclusive = Some(format!("harness: {}", f.detail));
+        out.failure = None;
+    }
+    out
+}
+
+// ---------------------------------------------------------------------------
+// Case generation
+// ---------------------------------------------------------------------------
+
+fn relay_script(rng: &mut Rng, class: &str) -> RelayScript {
+    let pick_steps = |rng: &mut Rng| -> Vec<Step> {
+        let n = rng.range(1, 6);
+        (0..n)
+            .map(|_| match class {
+                "tiny" => Step {
+                    rd: *rng.pick(&[1usize, 1, 2, 3, 5]),
+                    wr: *rng.pick(&[1usize, 1, 2, 3, 5]),
+                    pause_us: *rng.pick(&[0u64, 0, 0, 0, 0, 0, 50]),
+                },
+                "small" => Step {
+                    rd: *rng.pick(&[1usize, 7, 16, 64, 100]),
+                    wr: *rng.pick(&[1usize, 5, 16, 64, 100]),
+                    pause_us: *rng.pick(&[0u64, 0, 0, 0, 0, 0, 100, 500]),
+                },
+                "mixed" => Step {
+                    rd: *rng.pick(&[1usize, 100, 1000, 4096, 65536]),
+                    wr: *rng.pick(&[1usize, 64, 1000, 4096, 65536]),
+                    pause_us: *rng.pick(&[0u64, 0, 0, 0, 0, 200, 1000]),
+                },
+                _ => Step {
+                    rd: *rng.pick(&[4096usize, 16384, 65536, 262144]),
+                    wr: *rng.pick(&[4096usize, 16384, 65536, 262144]),
+                    pause_us: *rng.pick(&[0u64, 0, 0, 300]),
+                },
+            })
+            .collect()
+    };
+    RelayScript {
+        class: class.into(),
+        steps: [pick_steps(rng), pick_steps(rng)],
+        cap: match class {
+            "tiny" => *rng.pick(&[1usize, 8, 64]),
+            "small" => *rng.pick(&[16usize, 256, 4096]),
+            "mixed" => *rng.pick(&[256usize, 4096, 65536]),
+            _ => *rng.pick(&[4096usize, 65536, 1 << 20]),
+        },
+        hs_chunk: 0,
+        blackhole_after: None,
+    }
+}
+
+fn msg_list(rng: &mut Rng, class: &str, thorough: bool) -> Vec<MsgSpec> {
+    // total payload budget per direction, by relay class (the relay moves
+    // every byte with 2+ syscalls at the scripted chunk size)
+    let budget = match class {
+        "tiny" => 3000,
+        "small" => 20_000,
+        "mixed" => if thorough { 1_200_000 } else { 300_000 },
+        _ => if thorough { 4 << 20 } else { 1_300_000 },
+    };
+    let n = rng.below(7);
+    let mut total = 0usize;
+    let mut unsynced_ping_bytes = 0usize;
+    let mut out = Vec::new();
+    for _ in 0..n {
+        let kind = *rng.pick(&[Kind::Text, Kind::Binary, Kind::Binary, Kind::Ping, Kind::PingSync]);
+        let len = match kind {
+            Kind::Ping | Kind::PingSync => *rng.pick(&[0usize, 1, 4, 125]),
+            _ => match rng.below(10) {
+                0 => 0,
+                1 => 1,
+                2 => 125,
+                3 => 126,
+                4 => 65535,
+                5 => 65536,
+                6 => 1 << 20,
+                _ => rng.size(budget.min(200_000)),
+            },
+        };
+        if total + len > budget {
+            continue;
+        }
+        if kind == Kind::Ping {
+            // the pinging side does not read while it sends (half duplex):
+            // keep the unanswered-pong backlog far below any socket buffer
+            if unsynced_ping_bytes + len + 16 > 600 {
+                continue;
+            }
+            unsynced_ping_bytes += len + 16;
+        }
+        total += len;
+        out.push(MsgSpec { kind, len });
+    }
+    out
+}
+
+fn gen_case(rng: &mut Rng, thorough: bool, idx: usize) -> Case {
+    // walk the (driver, tls, link) grid systematically, the rest is seeded
+    let driver = ["iouring", "poll"][idx % 2];
+    let tls = ["none", "none", "rustls", "native"][(idx / 2) % 4];
+    let link = ["unix", "tcp"][(idx / 8) % 2];
+    let class = *rng.pick(&["tiny", "small", "small", "mixed", "mixed", "large"]);
+    let mut relay = relay_script(rng, class);
+    // Plain ws: tungstenite reads the upgrade header straight from the socket
+    // and rejects > 64 reads averaging < 128 B. Over TLS it reads whole
+    // decrypted records, so the script may apply from the first byte.
+    relay.hs_chunk = if tls == "none" {
+        *rng.pick(&[512usize, 512, 512, 64, 16, 8, 8, 0])
+    } else {
+        0
+    };
+    Case {
+        family: "seeded".into(),
+        driver: driver.into(),
+        link: link.into(),
+        tls: tls.into(),
+        // TCP with kernel-minimum buffers degenerates into zero-window probing
+        // (persist timer, hundreds of ms per stall): wall time, no new behaviour
+        sockbuf: if link == "tcp" { *rng.pick(&[0usize, 16384]) } else { *rng.pick(&[0usize, 1, 1, 8192]) },
+        relay,
+        msgs: [msg_list(rng, class, thorough), msg_list(rng, class, thorough)],
+        duplex: rng.chance(1, 3),
+        flush_each: rng.chance(2, 3),
+        closer: rng.below(2),
+        wscfg: *rng.pick(&[0u8, 0, 1, 2]),
+        seed: rng.next_u64(),
+    }
+}
+
+// ---------------------------------------------------------------------------
+// Evaluation
+// ---------------------------------------------------------------------------
+
+fn size_class(case: &Case) -> &'static str {
+    let max = case.msgs.iter().flatten().map(|m| m.len).max().unwrap_or(0);
+    let n: usize = case.msgs.iter().map(|l| l.len()).sum();
+    if n == 0 {
+        "nomsg"
+    } else if max == 0 {
+        "empty"
+    } else if max <= 125 {
+        "le125"
+    } else if max < 65536 {
+        "lt64k"
+    } else if max < (1 << 20) {
+        "lt1m"
+    } else {
+        "ge1m"
+    }
+}
+
+fn eval_sig(case: &Case) -> String {
+    let kinds: String = {
+        let mut k: Vec<&str> = case.msgs.iter().flatten().map(|m| kind_name(m.kind)).collect();
+        k.sort_unstable();
+        k.dedup();
+        k.iter().map(|s| &s[..1]).collect::<Vec<_>>().join("")
+    };
+    format!(
+        "{}/{}/{}/relay={}/sockbuf={}/{}/{}[{kinds}]/closer={}",
+        case.layer(),
+        case.driver,
+        case.link,
+        case.relay.class,
+        match case.sockbuf { 0 => "default", 1 => "min", _ => "small" },
+        if case.duplex { "duplex" } else { "half" },
+        size_class(case),
+        ["client", "server"][case.closer],
+    )
+}
+
+fn violation_sig(case: &Case, f: &Failure) -> String {
+    if f.rule == "hang-mutual-backpressure" {
+        // symmetric by nature: role, driver and relay class are incidental
+        return format!(
+            "C15/ws/{}/{}/{}",
+            f.rule,
+            case.layer(),
+            if case.duplex { "duplex" } else { "half" }
+        );
+    }
+    format!(
+        "C15/ws/{}/{}/{}/{}/{}/relay={}",
+        f.rule,
+        case.layer(),
+        ["client", "server"][f.role],
+        f.phase,
+        case.driver,
+        case.relay.class
+    )
+}
+
+fn execute(case: &Case, rep: &mut Report, watchdog: Duration) {
+    let t0 = Instant::now();
+    let r = panics::catch(|| run_case(case, watchdog));
+    if std::env::var_os("C15W_VERBOSE").is_some() {
+        eprintln!(
+            "[c15w] {:>6} ms {} bytes={:?} fail={:?} incon={:?} {}",
+            t0.elapsed().as_millis(),
+            eval_sig(case),
+            r.as_ref().ok().map(|o| o.relay_bytes),
+            r.as_ref().ok().and_then(|o| o.failure.as_ref().map(|f| f.rule.clone())),
+            r.as_ref().ok().and_then(|o| o.inconclusive.clone()),
+            if r.as_ref().is_ok_and(|o| o.inconclusive.is_some()) { case.to_json().to_string() } else { String::new() }
+        );
+    }
+    match r {
+        Ok(out) => {
+            let trivial = case.msgs.iter().all(|l| l.is_empty());
+            rep.eval(if trivial { None } else { Some(eval_sig(case)) });
+            rep.count("relayed_bytes", (out.relay_bytes[0] + out.relay_bytes[1]) as i64);
+            rep.count("relay_one_byte_reads", out.one_byte_reads as i64);
+            rep.count("relay_short_sends", out.short_sends as i64);
+            rep.count("relay_eagain_sends", out.eagain_sends as i64);
+            rep.count("pings_sent", (out.pings[0] + out.pings[1]) as i64);
+            rep.count("pongs_seen", (out.pongs[0] + out.pongs[1]) as i64);
+            rep.max("runtime_iterations", out.iterations as i64);
+            if out.policy_reject {
+                rep.count("ws_handshake_rejected_by_tungstenite_attack_check", 1);
+                return;
+            }
+            if let Some(r) = &out.inconclusive {
+                // reasons are classes, not instances
+                let r = if r.starts_with("watchdog") { "watchdog: case not finished".to_string() } else { r.clone() };
+                rep.inconclusive(&r);
+                return;
+            }
+            match &out.failure {
+                None => {
+                    rep.floor("held: io_uring driver", case.driver == "iouring");
+                    rep.floor("held: poll driver", case.driver == "poll");
+                    rep.floor("held: plain ws", case.tls == "none");
+                    rep.floor("held: ws over rustls", case.tls == "rustls");
+                    rep.floor("held: ws over native-tls", case.tls == "native");
+                    rep.floor("held: unix socketpair", case.link == "unix");
+                    rep.floor("held: tcp loopback", case.link == "tcp");
+                    rep.floor("held: 1 MiB message", case.msgs.iter().flatten().any(|m| m.len >= 1 << 20));
+                    rep.floor("held: 0-byte message", case.msgs.iter().flatten().any(|m| m.len == 0 && matches!(m.kind, Kind::Text | Kind::Binary)));
+                    rep.floor("held: ping answered while the peer only reads", case.msgs.iter().flatten().any(|m| m.kind == Kind::PingSync) && !case.duplex);
+                    rep.floor("held: full duplex through split()", case.duplex && !trivial);
+                    rep.floor("held: close started by the server", case.closer == 1);
+                    rep.floor("held: close started by the client", case.closer == 0);
+                    rep.floor("held: relay made 1-byte reads", out.one_byte_reads > 0);
+                    rep.floor("held: relay saw EAGAIN/short sends (back-pressure)", out.eagain_sends + out.short_sends > 0);
+                    if rep.want_sample() && !trivial {
+                        rep.sample(json!({"case": case.to_json(), "relayed_bytes": out.relay_bytes, "runtime_iterations": out.iterations}));
+                    }
+                }
+                Some(f) => rep.violation(&violation_sig(case, f), &f.detail, case.to_json()),
+            }
+        }
+        Err(p) => {
+            rep.eval(None);
+            match p.origin() {
+                panics::Origin::Repo(loc) => rep.violation(
+                    &format!("C15/ws/{}/{}/{}", p.sig(), case.layer(), case.driver),
+                    &format!("panic in compio at {loc}: {}", p.message),
+                    case.to_json(),
+                ),
+                o => rep.inconclusive(&format!("harness panic {o:?}: {}", p.message)),
+            }
+        }
+    }
+}
+
+pub fn main(args: &Args) {
+    let mut rep = Report::from_args("C15", &args.str("leg", "ws"), args);
+    if let Err(e) = crate::c15t::material() {
+        rep.inconclusive(&format!("cannot build TLS material: {e}"));
+        rep.finish();
+        return;
+    }
+    let watchdog = Duration::from_millis(args.u64("case-watchdog-ms", 60_000));
+    if let Some(path) = args.get("replay") {
+        let text = std::fs::read_to_string(path).expect("replay file");
+        let v: Value = vcommon::serde_json::from_str(&text).expect("replay json");
+        let case = Case::from_json(&v["program"]);
+        execute(&case, &mut rep, watchdog);
+        rep.finish();
+        return;
+    }
+    let thorough = args.thorough();
+    let iters = args.iters(400, 6000);
+    let base = Rng::new(args.seed()).fork(args.shard() + 1);
+    for i in 0..iters {
+        if rep.out_of_time() {
+            break;
+        }
+        let mut rng = base.fork(i as u64);
+        let c = gen_case(&mut rng, thorough, i + args.shard() as usize);
+        execute(&c, &mut rep, watchdog);
+    }
+    rep.note("cases: seeded relay scripts (tiny/small/mixed/large chunk classes, pauses, relay buffer 1 B .. 1 MiB) x {io_uring, poll} x {plain, rustls, native-tls} x {unix socketpair, tcp loopback} x socket buffers {default, kernel minimum, 8k} x {half duplex, split() full duplex} x close started by {client, server}");
+    rep.finish();
 }
